@@ -14,6 +14,10 @@ family, ev = the class's own evaluation or None).  The regions visited (counted 
   functor     results of monoidal / rigid / circuit / cartesian functors and of circuit2zx
   one-box     every box class used directly as a one-box diagram (gates, spiders, words, Sum, Bubble,
               Curry, ...) and identities (no box)
+  nested / sum-bubble-box / odd-name / odd-str / foreign-box / mixed-kinds
+              what can SIT IN `boxes` (section "what can sit in `boxes`" below): composite diagrams,
+              formal sums and bubbles, boxes of another class, boxes with non-string / hazardous
+              names, boxes that print themselves their own way - in layouts that force refusals
 
 Serialisation is by (name, z) objects exactly as in core.spec_diagram, but tolerant of any box data
 (numpy arrays, phases, functions): data and non-string names are reduced to a whitespace-free token.
@@ -28,8 +32,25 @@ from core import tok_ty, tok_box
 
 # ------------------------------------------------------------------ serialisation by (name, z)
 
+def safe_repr(x):
+    """repr(x); for an object whose repr itself raises (e.g. a circuit.Box prints its name, which
+    need not be a string) a deterministic stand-in built from its class and its parts."""
+    try:
+        return repr(x)
+    except Exception:
+        pass
+    try:
+        if hasattr(x, "boxes") and hasattr(x, "offsets") and list(x.boxes) != [x]:
+            return "!%s(%s,%s,[%s],%s)" % (type(x).__name__, safe_repr(x.dom), safe_repr(x.cod),
+                                          ",".join(safe_repr(b) for b in x.boxes), list(x.offsets))
+        return "!%s(%s,%s,%s)" % (type(x).__name__, safe_repr(getattr(x, "name", None)),
+                                  safe_repr(getattr(x, "dom", None)), safe_repr(getattr(x, "cod", None)))
+    except Exception:
+        return "!" + type(x).__name__
+
+
 def squeeze(x):
-    s = "".join(repr(x).split())
+    s = "".join(safe_repr(x).split())
     if len(s) > 60:
         s = s[:20] + "#" + hashlib.sha1(s.encode()).hexdigest()[:16]
     return s
@@ -43,10 +64,25 @@ def rspec_ty(t):
     return [(plain_name(x.name), int(getattr(x, "z", 0) or 0)) for x in t.objects]
 
 
+def is_composite(b):
+    """`b` sits in a diagram's `boxes` but is not a generator: a composite diagram used as a box
+    (a diagram of diagrams, as built by `foliation` and consumed by `flatten`)."""
+    from discopy import cat
+    return not isinstance(b, cat.Box)
+
+
+def box_name(b):
+    """The name token of whatever sits in `boxes`.  A composite diagram has no `.name`: it is an
+    opaque box for the class-blind model, named by a token of its repr."""
+    if is_composite(b):
+        return "~D:" + squeeze(b)
+    return plain_name(b.name)
+
+
 def rspec_box(b):
     k = box_kind(b)
     data = getattr(b, "data", None)
-    return dict(kind=k, name=plain_name(b.name) if k == "g" else None,
+    return dict(kind=k, name=box_name(b) if k == "g" else None,
                 dom=rspec_ty(b.dom), cod=rspec_ty(b.cod),
                 dagger=bool(getattr(b, "is_dagger", False)) if k == "g" else False,
                 data=None if (data is None or k != "g") else squeeze(data))
@@ -160,6 +196,24 @@ class FreeIntFunctor:
         return out
 
 
+class Wide(Exception):
+    """A layer too wide for the Kronecker evaluation."""
+
+
+def eval_deep(F, d, limit=256):
+    """`F` (a FreeIntFunctor) on a diagram of diagrams: a composite diagram sitting in `boxes` is
+    evaluated recursively through its own layers (the harness's own flattening: nothing of
+    `Diagram.flatten` is used), every generator - Sum and Bubble included - by its random matrix."""
+    out = np.eye(F.tydim(d.dom), dtype=np.int64)
+    for left, box, right in d.layers.boxes:
+        l, r = F.tydim(left), F.tydim(right)
+        if l * max(F.tydim(box.dom), F.tydim(box.cod)) * r > limit:
+            raise Wide()
+        m = eval_deep(F, box, limit) if is_composite(box) else F.box(box)
+        out = out @ np.kron(np.kron(np.eye(l, dtype=np.int64), m), np.eye(r, dtype=np.int64))
+    return out
+
+
 def max_width(d):
     w = len(d.dom)
     for l in d.layers.boxes:
@@ -169,15 +223,16 @@ def max_width(d):
 
 # ------------------------------------------------------------------ class evaluations
 
-def ev_tensor(x):
-    """tensor.Diagram / Circuit evaluation (discopy's own), as an array."""
+def ev_tensor(x, mixed=False):
+    """tensor.Diagram / Circuit evaluation (discopy's own), as an array; mixed=True asks a circuit
+    for its classical-quantum evaluation whatever its layout."""
     from discopy import tensor
     if not hasattr(x, "eval"):
         x = tensor.Diagram.upgrade(x)
-    return np.asarray(x.eval().array)
+    return np.asarray((x.eval(mixed=True) if mixed else x.eval()).array)
 
 
-def ev_cartesian(x):
+def ev_cartesian(x, mixed=False):
     from discopy import cartesian
     if not isinstance(x, cartesian.Diagram):
         x = cartesian.Diagram.upgrade(x)
@@ -202,6 +257,7 @@ def same_value(a, b):
 class Receiver:
     def __init__(self, region, family, label, d, ev=None):
         self.region, self.family, self.label, self.d, self.ev = region, family, label, d, ev
+        self.shape = None      # how a box-kinds receiver was laid out (grown / chain / blocked / ...)
 
 
 _OWN = {}
@@ -598,6 +654,489 @@ def one_box(pools, rng, tier, skipped):
     return out
 
 
+# ------------------------------------------------------------------ what can sit in `boxes`
+#
+# `boxes` is a list of arbitrary objects with a dom and a cod.  The regions below put there, for
+# every diagram class: composite diagrams (diagrams of diagrams, 1 and 2 levels, identities, the
+# library's own `foliation()`), formal sums (0, 1, 2 terms, of composites) and bubbles (nested,
+# with their own dom/cod), boxes of a DIFFERENT class than the host diagram, boxes whose name is not
+# a string or is a string that is hazardous for message formatting, and boxes of user subclasses
+# that print themselves their own way (__str__ / __repr__ / __format__).  Each kind is laid out
+#   grown         by the scanning constructor, layer by layer, drawing boxes from pool + odd objects
+#   chain         [A, B] with B wired to A (every move must be refused)
+#   blocked-*     [A, C, B]: C free on the far right / left, B wired to A (the long moves 0 -> 2 and
+#                 2 -> 0 are refused part-way, after one legal step)
+#   blocked-2     [A, C, C', B] (two legal steps, then the refusal)
+#   side          [A, B] side by side (both orders legal)
+# and every receiver gets all (i, j, left) of [-1, n]^2 in the check.
+
+NONSTR_NAMES = [0, 1, -3, 2.5, (1, 2), (), ('f', ('g', 0)), None, True, False, b'f', b'', 10 ** 30,
+                frozenset([1]), Ellipsis, 1j]
+HAZARD_NAMES = ['', ' ', 'a b', '{}', '{0}', '{1}', '{2}', '{name}', '{0.name}', '{0[0]}', '%s', '%(name)s',
+                '%d', '%', '{', '}', 'tab\there', 'new\nline', 'β→', "quo'te", '"', '\\', 'x' * 300]
+ODD_NAMES = NONSTR_NAMES + HAZARD_NAMES
+
+ODD_TEXTS = ['{}', '{0} {1}', '{2}', '{box0.name}', '{0.name}', '%s %d', '%(x)s', '', ' ',
+             'two\nlines', 'β→', 'y' * 5000, 'Boxes {} and {} do not commute.', '{', '}', '%']
+
+
+class OddName:
+    """A name that is an object of a user class (printed its own way)."""
+
+    def __init__(self, text, rep):
+        self.text, self.rep = text, rep
+
+    def __str__(self):
+        return self.text
+
+    def __repr__(self):
+        return self.rep
+
+    def __eq__(self, other):
+        return isinstance(other, OddName) and (self.text, self.rep) == (other.text, other.rep)
+
+    def __hash__(self):
+        return hash((self.text, self.rep))
+
+
+_ODD = {}
+
+
+def odd_str_box(b, text, rep, fmt=None):
+    """The box `b` as an instance of a user subclass of its own class that prints itself its own
+    way: __str__ -> text, __repr__ -> rep, and (fmt given) __format__ -> fmt."""
+    import copy
+    key = (type(b), fmt is not None)
+    if key not in _ODD:
+        base = type(b)
+        ns = {"__str__": lambda self: self.odd_text, "__repr__": lambda self: self.odd_repr,
+              "__hash__": lambda self: hash((type(self).__name__, self.odd_repr))}
+        if fmt is not None:
+            ns["__format__"] = lambda self, spec: self.odd_fmt
+        _ODD[key] = type("OddStr_" + base.__name__, (base,), ns)
+    b = copy.copy(b)
+    b.__class__ = _ODD[key]
+    b.odd_text, b.odd_repr, b.odd_fmt = text, rep, fmt
+    return b
+
+
+def _safe(thunk, skipped=None, label=""):
+    try:
+        x = thunk()
+        x.dom, x.cod
+        return x
+    except Exception as exc:
+        if skipped is not None:
+            skipped.append((label, "%s: %s" % (type(exc).__name__, exc)))
+        return None
+
+
+def _prod(t):
+    n = 1
+    for x in t:
+        n *= int(getattr(x, "name", x))
+    return n
+
+
+def box_makers(pools):
+    """family -> (name, dom, cod) -> a generator of that family's Box class with that name."""
+    m = pools.mods
+    return dict(
+        monoidal=lambda nm, dom, cod: m["monoidal"].Box(nm, dom, cod),
+        rigid=lambda nm, dom, cod: m["rigid"].Box(nm, dom, cod),
+        pregroup=lambda nm, dom, cod: m["rigid"].Box(nm, dom, cod),
+        biclosed=lambda nm, dom, cod: m["biclosed"].Box(nm, dom, cod),
+        cartesian=lambda nm, dom, cod: m["cartesian"].Box(
+            nm, dom, cod, lambda *xs, k=len(cod): tuple(sum(xs) + t for t in range(k)) if k != 1 else sum(xs)),
+        tensor=lambda nm, dom, cod: m["tensor"].Box(nm, dom, cod, list(range(_prod(dom) * _prod(cod)))),
+        circuit=lambda nm, dom, cod: m["circuit"].Box(nm, dom, cod, is_mixed=True),
+        zx=lambda nm, dom, cod: m["zx"].Box(nm, dom, cod))
+
+
+def family_dom(P, dom):
+    return P["Id"](dom).dom
+
+
+def raw(base, dom, placed):
+    """`base(dom, cod, boxes, offsets)` for boxes placed at the given offsets: the scanning
+    constructor, no >> and no @ (which would dissolve a composite box into its own boxes)."""
+    scan, boxes, offs = dom, [], []
+    for b, off in placed:
+        if off < 0 or scan[off:off + len(b.dom)] != b.dom or len(scan[off:off + len(b.dom)]) != len(b.dom):
+            raise ValueError("box does not fit at its offset")
+        boxes.append(b)
+        offs.append(off)
+        scan = scan[:off] @ b.cod @ scan[off + len(b.dom):]
+    return base(dom, scan, boxes, offs)
+
+
+def grow_raw(rng, base, pool, odd, dom, depth, maxw=6, p_odd=0.6):
+    """Grow layer by layer like `grow`, through the scanning constructor; a fitting odd object is
+    preferred with probability p_odd."""
+    scan, placed = dom, []
+    for _ in range(depth):
+        n = len(scan)
+
+        def fits(objs):
+            out = []
+            for b in objs:
+                k = len(b.dom)
+                if n - k + len(b.cod) > maxw:
+                    continue
+                for off in range(n - k + 1):
+                    if scan[off:off + k] == b.dom:
+                        out.append((b, off))
+            return out
+        c_odd, c_pool = fits(odd), fits(pool)
+        if c_odd and (not c_pool or rng.random() < p_odd):
+            b, off = rng.choice(c_odd)
+        elif c_pool:
+            b, off = rng.choice(c_pool)
+        else:
+            break
+        placed.append((b, off))
+        scan = scan[:off] @ b.cod @ scan[off + len(b.dom):]
+    return raw(base, dom, placed)
+
+
+def wirings(a, b):
+    """Shifts s such that b's domain, starting s wires right of the start of a's codomain, meets
+    it in >= 1 wire and agrees with it on every shared wire."""
+    C, D = a.cod, b.dom
+    out = []
+    for s in range(-len(D) + 1, len(C)):
+        lo, hi = max(0, s), min(len(C), s + len(D))
+        if hi > lo and all(C[t:t + 1] == D[t - s:t - s + 1] for t in range(lo, hi)):
+            out.append(s)
+    return out
+
+
+def wired_pair(a, b, s):
+    """(dom, [(a, offa), (b, offb)]) with b wired under a at shift s."""
+    C, D = a.cod, b.dom
+    lpad = D[:max(0, -s)]
+    rpad = D[len(C) - s:] if s + len(D) > len(C) else D[:0]
+    dom = lpad @ a.dom @ rpad
+    return dom, [(a, len(lpad)), (b, len(lpad) + s)]
+
+
+def layouts(rng, base, a, b, frees, thorough):
+    """Receivers' (shape, thunk) for the pair A over B: wired (chain / blocked) and free (side)."""
+    out = []
+    ss = wirings(a, b)
+    if ss:
+        shifts = ss if thorough else [rng.choice(ss)]
+        for s in shifts:
+            dom, (pa, pb) = wired_pair(a, b, s)
+            out.append(("chain", lambda dom=dom, pa=pa, pb=pb: raw(base, dom, [pa, pb])))
+        dom, (pa, pb) = wired_pair(a, b, rng.choice(ss))
+        after_a = len(dom) - len(a.dom) + len(a.cod)
+        c = rng.choice(frees)
+        out.append(("blocked-right", lambda dom=dom, pa=pa, pb=pb, c=c, w=after_a: raw(
+            base, dom @ c.dom, [pa, (c, w), pb])))
+        c = rng.choice(frees)
+        out.append(("blocked-left", lambda dom=dom, pa=pa, pb=pb, c=c: raw(
+            base, c.dom @ dom, [(pa[0], pa[1] + len(c.dom)), (c, 0), (pb[0], pb[1] + len(c.cod))])))
+        if thorough or rng.random() < 0.34:
+            c, c2 = rng.choice(frees), rng.choice(frees)
+            out.append(("blocked-2", lambda dom=dom, pa=pa, pb=pb, c=c, c2=c2, w=after_a: raw(
+                base, c2.dom @ dom @ c.dom,
+                [(pa[0], pa[1] + len(c2.dom)), (c, w + len(c2.dom)), (c2, 0),
+                 (pb[0], pb[1] + len(c2.cod))])))
+    out.append(("side", lambda: raw(base, a.dom @ b.dom, [(a, 0), (b, len(a.cod))])))
+    return out
+
+
+def composites(rng, P, n, skipped):
+    """(label, composite diagram) built from a family's pool: sequential, parallel, whiskered,
+    grown (>= 2 boxes), identities (no box), and two-level ones (a diagram whose boxes are
+    composites)."""
+    import random as _random
+    Id, pool, base = P["Id"], P["pool"], P["base"]
+    doms = [family_dom(P, t) for t in P["doms"]]
+    atoms = [t[k:k + 1] for t in doms for k in range(len(t))] or doms
+    seqs = [(a, b) for a in pool for b in pool if len(a.cod) and a.cod == b.dom]
+    out = []
+
+    def add(label, thunk):
+        c = _safe(thunk, skipped, label)
+        if c is not None and len(c.dom) <= 4 and len(c.cod) <= 4:
+            out.append((label, c))
+    for k in range(n):
+        kind = ["seq", "par", "whisker", "grown", "ident", "seq", "par"][k % 7]
+        if kind == "seq" and seqs:
+            a, b = rng.choice(seqs)
+            add("%s >> %s" % (a, b), lambda: a >> b)
+        elif kind == "par":
+            a, b = rng.choice(pool), rng.choice(pool)
+            add("%s @ %s" % (a, b), lambda: a @ b)
+        elif kind == "whisker":
+            a, t = rng.choice(pool), rng.choice(atoms)
+            if rng.random() < 0.5:
+                add("Id(%s) @ %s" % (t, a), lambda: Id(t) @ a)
+            else:
+                add("%s @ Id(%s)" % (a, t), lambda: a @ Id(t))
+        elif kind == "grown":
+            seed, dom, dep = rng.getrandbits(32), rng.choice(doms), rng.randint(2, 3)
+            add("grow(seed=%d, dom=%r, depth=%d)" % (seed, dom, dep),
+                lambda: grow(_random.Random(seed), Id, pool, dom, dep, maxw=4))
+        else:
+            t = rng.choice(doms + atoms)
+            add("Id(%s)" % (t,), lambda: Id(t))
+    out = [(l, c) for l, c in out if len(c.boxes) != 1]
+    level1 = list(out)
+    for label, c in rng.sample(level1, min(len(level1), max(1, n // 4))):
+        add("Diagram(boxes=[%s])" % label, lambda c=c: base(c.dom, c.cod, [c], [0]))
+    if level1:
+        for _ in range(max(1, n // 6)):
+            seed, dom = rng.getrandbits(32), rng.choice(doms)
+            add("Diagram(boxes=composites; seed=%d, dom=%r)" % (seed, dom), lambda: grow_raw(
+                _random.Random(seed), base, [], [c for _, c in level1], dom, 3, maxw=4))
+    return [(l, c) for l, c in out if is_composite(c)]
+
+
+def sums_bubbles(rng, P, n, skipped, fam):
+    """(label, object) formal sums (2 terms, of a composite, 1 term, no term) and bubbles (of a
+    box, of a composite, of a bubble, with dom/cod of their own) over the family's pool."""
+    pool, out = P["pool"], []
+    seqs = [(a, b) for a in pool for b in pool if len(a.cod) and a.cod == b.dom]
+
+    def add(label, thunk):
+        c = _safe(thunk, skipped, label)
+        if c is not None and not is_composite(c):
+            out.append((label, c))
+    for k in range(n):
+        a = rng.choice(pool)
+        kind = ["sum2", "bubble", "sum-of-composite", "bubble-of-composite", "sum1", "sum0",
+                "bubble-bubble", "bubble-domcod", "sum3"][k % 9]
+        if kind == "sum2":
+            add("(%s) + (%s)" % (a, a), lambda: a + a)
+        elif kind == "sum3":
+            add("(%s) + (%s) + (%s)" % (a, a, a), lambda: a + a + a)
+        elif kind == "sum1":
+            add("Sum([%s])" % (a,), lambda: type(a + a)([a]))
+        elif kind == "sum0":
+            add("Sum([], %s, %s)" % (a.dom, a.cod), lambda: type(a + a)([], a.dom, a.cod))
+        elif kind == "sum-of-composite" and seqs:
+            a, b = rng.choice(seqs)
+            add("(%s >> %s) + (%s >> %s)" % (a, b, a, b), lambda: (a >> b) + (a >> b))
+        elif kind == "bubble":
+            add("(%s).bubble()" % (a,), lambda: a.bubble())
+        elif kind == "bubble-of-composite" and seqs:
+            a, b = rng.choice(seqs)
+            add("(%s >> %s).bubble()" % (a, b), lambda: (a >> b).bubble())
+        elif kind == "bubble-bubble":
+            add("(%s).bubble().bubble()" % (a,), lambda: a.bubble().bubble())
+        elif kind == "bubble-domcod":
+            b = rng.choice(pool)
+            add("Bubble(%s, dom=%s, cod=%s)" % (a, b.dom, b.cod),
+                lambda: type(a.bubble())(a, dom=b.dom, cod=b.cod))
+    return out
+
+
+def odd_named(rng, P, n, skipped, fam, mk):
+    """(label, box) generators shaped like the family's pool boxes whose name is not a string (int,
+    float, tuple, None, bool, bytes, an object of a user class) or a hazardous string."""
+    out = []
+    for k in range(n):
+        a = rng.choice(P["pool"])
+        if k % 5 == 4:
+            nm = OddName(rng.choice(ODD_TEXTS), rng.choice(["<name>", "{}", "%s", ""]))
+        else:
+            nm = rng.choice(NONSTR_NAMES if k % 5 in (0, 2, 3) else HAZARD_NAMES)
+        c = _safe(lambda: mk(nm, a.dom, a.cod), skipped, "%s Box(%r, ...)" % (fam, nm))
+        if c is not None:
+            out.append(("Box(%s, %s, %s)" % (squeeze(nm), a.dom, a.cod), c))
+    return out
+
+
+def odd_printed(rng, P, n, skipped, fam, mk):
+    """(label, box) pool boxes (and same-shaped fresh ones) as instances of a user subclass with its
+    own __str__ / __repr__ (/ __format__)."""
+    out = []
+    for k in range(n):
+        a = rng.choice(P["pool"])
+        if k % 2:
+            a = _safe(lambda: mk("p%d" % k, a.dom, a.cod), skipped, "") or a
+        text, rep = rng.choice(ODD_TEXTS), rng.choice(ODD_TEXTS + ["<box %d>" % k])
+        fmt = rng.choice(ODD_TEXTS) if k % 4 == 3 else None
+        c = _safe(lambda: odd_str_box(a, text, rep, fmt), skipped, "%s odd_str_box" % fam)
+        if c is not None:
+            out.append(("OddStr(%s; str=%s, repr=%s%s)" % (
+                squeeze(a.name), squeeze(text), squeeze(rep),
+                "" if fmt is None else ", format=" + squeeze(fmt)), c))
+    return out
+
+
+def open_boxes(d):
+    """The harness's own flattening, with the class's own >> and @ (no functor): every composite
+    box is replaced by its layers, recursively."""
+    out = d.id(d.dom)
+    for left, box, right in d.layers:
+        inner = open_boxes(box) if is_composite(box) else box
+        out = out >> d.id(left) @ inner @ d.id(right)
+    return out
+
+
+def flatten_comparable(d):
+    """No formal sum and no bubble anywhere inside: `flatten()` distributes sums (the diagram
+    becomes one Sum) and rebuilds bubbles, so its output is comparable box by box only without."""
+    for b in d.boxes:
+        if is_composite(b):
+            if not flatten_comparable(b):
+                return False
+        elif hasattr(b, "terms") or hasattr(b, "inside"):
+            return False
+    return True
+
+
+def ev_flat(ev):
+    """The class's own evaluation of a diagram of diagrams: of its opened form."""
+    if ev is None:
+        return None
+    return lambda x, mixed=False: ev(open_boxes(x), mixed=mixed)
+
+
+def rebuilt_flattens(d, r):
+    """Does the diagram built directly from r's dom, cod, boxes, offsets (by the first class of d's
+    MRO whose constructor takes them) flatten?"""
+    for cls in type(d).__mro__:
+        try:
+            x = cls(r.dom, r.cod, list(r.boxes), list(r.offsets))
+        except Exception:
+            continue
+        try:
+            x.flatten()
+            return True
+        except Exception:
+            return False
+    return False
+
+
+FOREIGN_HOSTS = ["monoidal", "rigid", "biclosed", "tensor", "circuit"]
+
+
+def box_kinds(pools, rng, tier, skipped):
+    import random as _random
+    thorough = tier != "quick"
+    out = []
+    mk = box_makers(pools)
+
+    def emit(region, fam, shape, label, thunk, ev=None):
+        d = _try(out, region, fam, label, thunk, ev, skipped)
+        if d is None:
+            return None
+        if region == "foreign-box":
+            # admitted only if the host class takes the foreign types as they are: its own
+            # `upgrade` (applied to every result of a rewrite) must leave the RECEIVER unchanged
+            try:
+                up = type(d).upgrade(d)
+                same = rser_diagram(up) == rser_diagram(d) and wf_failure_any(d) is None \
+                    and wf_failure_any(up) is None
+            except Exception:
+                same = False
+            if not same:
+                out.pop()
+                skipped.append((label, "foreign types are re-typed by the host class"))
+                return None
+        out[-1].shape = shape
+        return d
+
+    def lay(region, fam, host, odd, pool, n_grown, n_pairs, ev=None, what=""):
+        """Receivers of class `host` for one kind of odd objects `odd` = [(label, object)]."""
+        if not odd:
+            return
+        P = getattr(pools, fam)
+        objs = [c for _, c in odd]
+        names = dict((id(c), l) for l, c in odd)
+
+        def nm(b):
+            return names.get(id(b), squeeze(b)[:40])
+        for _ in range(n_grown):
+            seed, dom = rng.getrandbits(32), family_dom(P, rng.choice(P["doms"]))
+            dep = rng.choice([2, 3, 3, 4, 5] if not thorough else [2, 3, 4, 5, 6, 8])
+            emit(region, fam, "grown", "%s %s.Diagram(dom, cod, boxes, offsets) grown from the pool and %d %s, "
+                 "seed=%d, dom=%r, depth=%d" % (what, host.__module__.split(".")[-1], len(objs), region, seed,
+                                                dom, dep),
+                 lambda: grow_raw(_random.Random(seed), host, pool, objs, dom, dep), ev)
+        frees = [b for b in pool + objs if len(b.dom) + len(b.cod) <= 4]
+        for _ in range(n_pairs):
+            o = rng.choice(objs)
+            partners = [p for p in objs + pool if wirings(o, p) or wirings(p, o)]
+            if not partners:
+                emit(region, fam, "side", "%s [%s] beside itself" % (what, nm(o)),
+                     lambda: raw(host, o.dom @ o.dom, [(o, 0), (o, len(o.cod))]), ev)
+                continue
+            p = rng.choice(partners)
+            pairs = [(a, b) for a, b in ((o, p), (p, o)) if wirings(a, b)]
+            a, b = rng.choice(pairs)
+            for shape, thunk in layouts(rng, host, a, b, frees, thorough):
+                emit(region, fam, shape, "%s %s of [%s] over [%s]" % (what, shape, nm(a), nm(b)), thunk, ev)
+
+    n_obj = 8 if not thorough else 20
+    kinds = {}
+    for fam in pools.families():
+        P = getattr(pools, fam)
+        base, pool = P["base"], list(P["pool"])
+        if fam == "cartesian":
+            from discopy import cartesian
+            pool += [cartesian.Copy(2), cartesian.Swap(1, 2), cartesian.Discard(2)]
+        if fam == "circuit":
+            from discopy.quantum.circuit import IQPansatz
+            pool += [IQPansatz(2, [[0.25]])]
+        ng, npairs = (1, 2) if not thorough else (4, 7)
+        comp = composites(rng, P, n_obj, skipped)
+        sb = sums_bubbles(rng, P, n_obj, skipped, fam)
+        on = odd_named(rng, P, n_obj, skipped, fam, mk[fam])
+        op = odd_printed(rng, P, n_obj, skipped, fam, mk[fam])
+        kinds[fam] = comp + sb + on + op
+        evf = ev_flat(P["ev"])
+        lay("nested", fam, base, comp, pool, ng, npairs, evf, fam)
+        lay("sum-bubble-box", fam, base, sb, pool, max(1, ng // 2), max(1, npairs - 1), None, fam)
+        lay("odd-name", fam, base, on, pool, max(1, ng // 2), max(1, npairs - 1), None, fam)
+        lay("odd-str", fam, base, op, pool, max(1, ng // 2), max(1, npairs - 1), None, fam)
+        lay("mixed-kinds", fam, base, kinds[fam], pool, 1 if not thorough else ng // 2,
+            0 if not thorough else 2, None, fam)
+        # the library's own diagrams of diagrams
+        for _ in range(1 if not thorough else 4):
+            seed, dom, dep = rng.getrandbits(32), rng.choice(P["doms"]), rng.randint(3, 6)
+            emit("nested", fam, "foliation", "grow(%s, dom=%r, depth=%d, seed=%d).foliation()" % (fam, dom, dep, seed),
+                 lambda: grow(_random.Random(seed), P["Id"], P["pool"], dom, dep, maxw=5).foliation(), evf)
+    # boxes of another class than the diagram that holds them
+    combos = [(h, s_) for h in FOREIGN_HOSTS for s_ in pools.families() if s_ != h
+              and not (h == "rigid" and s_ == "pregroup")] + [("zx", "cartesian"), ("cartesian", "zx")]
+    if not thorough:
+        combos = [("monoidal", "rigid"), ("rigid", "monoidal")] + rng.sample(combos, 5)
+    for h, s_ in combos:
+        H, S = getattr(pools, h), getattr(pools, s_)
+        src = list(S["pool"])
+        plain = [(squeeze(b)[:40], b) for b in src]
+        extra = rng.sample(kinds[s_], min(len(kinds[s_]), 4))
+        lay("foreign-box", s_, H["base"], plain + extra, [], 1 if not thorough else 2,
+            1 if not thorough else 3, None, "%s boxes in a" % s_)
+    # pinned: the textbook diagrams of diagrams
+    from discopy.monoidal import Ty, Box, Id, Diagram
+    x, y, z = Ty('x'), Ty('y'), Ty('z')
+    f, g, h = Box('f', x, y), Box('g', y, z), Box('h', z, x)
+    fg, gh, hf = f >> g, g >> h, h >> f
+    pinned = [
+        ("chain", "Diagram(x, x, [f >> g, h], [0, 0])", lambda: Diagram(x, x, [fg, h], [0, 0])),
+        ("chain", "Diagram(x, y, [f >> g, h >> f], [0, 0])", lambda: Diagram(x, y, [fg, hf], [0, 0])),
+        ("chain", "Diagram(y @ y, x @ z, [g @ g, h @ Id(z)], [0, 0])",
+         lambda: Diagram(y @ y, x @ z, [g @ g, h @ Id(z)], [0, 0])),
+        ("blocked-right", "Diagram(x @ y, x @ x, [f >> g, g >> h, h], [0, 1, 0])",
+         lambda: Diagram(x @ y, x @ x, [fg, gh, h], [0, 1, 0])),
+        ("side", "Diagram(x @ y @ z, z @ x @ y, [f >> g, g >> h, h >> f], [0, 1, 2])",
+         lambda: Diagram(x @ y @ z, z @ x @ y, [fg, gh, hf], [0, 1, 2])),
+        ("chain", "Diagram(x, x, [Id(x), Id(x)], [0, 0])", lambda: Diagram(x, x, [Id(x), Id(x)], [0, 0])),
+        ("side", "Diagram(x, x, [Id(Ty()), Id(Ty()), f >> g >> h], [0, 1, 0])",
+         lambda: Diagram(x, x, [Id(Ty()), Id(Ty()), fg >> h], [0, 1, 0])),
+    ]
+    for shape, label, thunk in pinned:
+        emit("nested", "monoidal", shape, label, thunk, None)
+    return out
+
+
 def receivers(rng, tier):
     """All receivers of one run, and the list of constructions the library refused."""
     pools = Pools()
@@ -608,4 +1147,5 @@ def receivers(rng, tier):
     out += helpers(pools, rng, tier, skipped)
     out += functor_results(pools, rng, tier, skipped)
     out += one_box(pools, rng, tier, skipped)
+    out += box_kinds(pools, rng, tier, skipped)
     return out, skipped
